@@ -112,13 +112,17 @@ func (h *HarnessRun) noteFunc(fn *ssa.Function) {
 }
 
 func NewEngine(repoDir, verifDir, tier string) *Engine {
+	maxPaths := 200000
+	if tier == "thorough" {
+		maxPaths = 3000000
+	}
 	return &Engine{
 		ssaPkgs:      map[string]*ssa.Package{},
 		built:        map[*ssa.Package]bool{},
 		initSlices:   map[*ssa.Global][]ssa.Instruction{},
 		maxDecisions: 4000,
 		maxSteps:     3000000,
-		maxPaths:     200000,
+		maxPaths:     maxPaths,
 		tier:         tier,
 		solverKind:   "z3",
 		timeoutMs:    60000,
